@@ -36,6 +36,7 @@ func newXlat2(pr *Prog, eff *Effects, ctx *Ctx) *Xlat {
 }
 
 type VerifyOpts struct {
+	View       string
 	TrackPanic bool
 	NoSafety   bool
 	Lockstep   bool
@@ -47,6 +48,7 @@ func VerifyFunc(pr *Prog, eff *Effects, fi *FuncInfo, opts VerifyOpts) (rep *Fun
 	x.curFunc = fi.Key
 	x.trackPanic = opts.TrackPanic
 	x.noSafety = opts.NoSafety
+	x.view = opts.View
 	rep = &FuncReport{Key: fi.Key}
 	defer func() {
 		if r := recover(); r != nil {
@@ -231,6 +233,9 @@ func VerifyFunc(pr *Prog, eff *Effects, fi *FuncInfo, opts VerifyOpts) (rep *Fun
 			}
 			env.setResults(fi, rs)
 			for i, e := range spec.Ensures {
+				if !e.inView(x.view) {
+					continue
+				}
 				nm := fmt.Sprintf("%s/ensures.%d", fi.Key, i+1)
 				if e.Name != "" {
 					nm = fmt.Sprintf("%s/ensures[%s]", fi.Key, e.Name)
